@@ -434,3 +434,40 @@ Definition c_encode_ty (B E : endian) (t : ty) (o : obj) : cres (list Z) :=
   c_encode B E (render (norm t)) o (zeros (Z.to_nat (nbytes t))).
 Definition c_decode_ty (B E : endian) (t : ty) (s : list Z) : cres obj :=
   c_decode B E (render (norm t)) s (zero_obj (norm t)).
+
+(* ---------- reading storage back as a value (arbitrary storage contents) ---------- *)
+
+Fixpoint chunks (cnt : nat) (sz : nat) (bs : list Z) : list (list Z) :=
+  match cnt with
+  | O => []
+  | S c => firstn sz bs :: chunks c sz (skipn sz bs)
+  end.
+
+Section Abs.
+  Variable E : endian.
+
+  (* the value a C object holds, integers read UNSIGNED in their storage width (the wire
+     keeps the low n bits only, see Spec.enc_bits) *)
+  Fixpoint abs_val (t : ty) (o : obj) : val :=
+    match t with
+    | TBool => VB (Z.odd (hd 0 (obytes o)))
+    | TByte => VZ (hd 0 (obytes o))
+    | TUint _ | TInt _ | TEnum _ _ => VZ (native_val E (obytes o))
+    | TAlias u => abs_val u o
+    | TArr _ cap e =>
+        if flat e
+        then VL (map (fun c => abs_val e (OB c)) (chunks cap (Z.to_nat (csize e)) (obytes o)))
+        else VL (map (abs_val e) (match o with OL l => l | _ => [] end))
+    | TMsg _ fs =>
+        VM ((fix go (l : list (Z * ty)) : list (Z * val) :=
+               match l with
+               | [] => []
+               | kf :: r =>
+                   (fst kf, abs_val (snd kf)
+                              (match o with
+                               | OS ofs => match lookup (fst kf) ofs with Some x => x | None => OB [] end
+                               | _ => OB []
+                               end)) :: go r
+               end) fs)
+    end.
+End Abs.
